@@ -1,4 +1,52 @@
-/- Driver.C01 — stream `C01` (stub: replaced when the property's model is built). -/
+/-
+  Driver.C01 — stream `C01`.
+    payload `(doc doctype|none blocks...)`: a document built through the constructor / append API: one
+      top-level element = single root, otherwise the blocks sit in the invisible wrapper.
+      block := (t text) | (e name (attr*) sc block*)      attr := (name value|none)
+    payload `(lex text)`: only the strict lexer.
+  Observation for `doc`: getHTML, the tokens `lexStrict` sees in it, and the document parsed back from it
+  (canonical tree + its getHTML).
+-/
+import Driver.TokIO
+import AHP.Model.Lexer
 namespace Driver.C01
-def run (_payload : String) : String := "unimplemented"
+open AHP AHP.Sexp Driver.TokIO
+
+partial def toNode? : Sexp → Option Node
+  | .list [.atom "t", s] => (toStr? s).map Node.text
+  | .list (.atom "e" :: n :: .list as :: .atom sc :: kids) => do
+    let n ← toStr? n
+    let as ← as.mapM toAttr?
+    let kids ← kids.mapM toNode?
+    -- `AdvancedTag(name, attrList, isSelfClosing)`: name lower-cased, void names are self-closing
+    let n := lower n
+    pure (Node.elem n (intake as AttrState.empty) (sc == "1" || isVoid n) kids)
+  | _ => none
+
+def lexSx (o : Option (List Token)) : Sexp :=
+  match o with
+  | none => sym "nolex"
+  | some ts => .list (sym "toks" :: ts.map tokenSx)
+
+def run (payload : String) : String :=
+  match Sexp.parse payload with
+  | some (.list [.atom "lex", s]) =>
+    match toStr? s with
+    | some text => (lexSx (lexStrict text)).render
+    | none => "bad-case"
+  | some (.list (.atom "doc" :: dt :: blocks)) =>
+    match toOptStr? dt, blocks.mapM toNode? with
+    | some dt, some bs =>
+      let root : Node := match bs with
+        | [.elem n a sc kids] => .elem n a sc kids
+        | _ => .elem wrapperName AttrState.empty false bs
+      let html := docHTML dt root
+      let lexed := lexStrict html
+      let back : Sexp := match lexed with
+        | none => sym "nolex"
+        | some toks => feedSx (feedTokens toks)
+      (Sexp.list [strAtom html, canonSx root, lexSx lexed, back]).render
+    | _, _ => "bad-case"
+  | _ => "bad-case"
+
 end Driver.C01
